@@ -15,11 +15,16 @@ import (
 )
 
 type caseT struct {
-	Check    bool      `json:"check"`
-	Compiled bool      `json:"compiled"`
-	Script   []cx.Op   `json:"script"`
-	Beh      []cx.Beh  `json:"beh"`
-	Target   cx.Target `json:"target"`
+	Check    bool `json:"check"`
+	Compiled bool `json:"compiled"`
+	// NoRoute: a custom NoRoute handler that aborts is installed and an unmatched request is served
+	// right before the request of the case (same pooled context); Tracing: app with tracing on.
+	// Both are configuration the model says is irrelevant to the chain.
+	NoRoute bool      `json:"noroute"`
+	Tracing bool      `json:"tracing"`
+	Script  []cx.Op   `json:"script"`
+	Beh     []cx.Beh  `json:"beh"`
+	Target  cx.Target `json:"target"`
 }
 
 // ---------------------------------------------------------------- generator
@@ -70,6 +75,16 @@ func (g *gen) hs(lo, hi int) []int {
 }
 
 func (g *gen) seg() int { g.nextSeg++; return g.nextSeg }
+
+// nseg: the segment of a nested group — one in three is the empty prefix `Group("")` (an invisible
+// tag: the model keeps it in the path, the request path does not show it)
+func (g *gen) nseg() int {
+	s := g.seg()
+	if g.r.Chance(1, 3) {
+		return cx.InvisibleSeg + s
+	}
+	return s
+}
 
 func cat(a []int, b ...int) []int { return append(append([]int{}, a...), b...) }
 
@@ -169,7 +184,7 @@ func (g *gen) step() {
 			}{rt, []int{sg}})
 		})
 		add(9, len(g.groups) > 0, func() {
-			p, sg := r.Intn(len(g.groups)), g.seg()
+			p, sg := r.Intn(len(g.groups)), g.nseg()
 			g.add(cx.Op{K: "SG", A: p, Seg: sg, Hs: g.hs(0, 2)})
 			g.groups = append(g.groups, struct {
 				router int
@@ -219,7 +234,7 @@ func (g *gen) step() {
 			g.agroups = append(g.agroups, struct{ path []int }{[]int{sg}})
 		})
 		add(8, len(g.agroups) > 0, func() {
-			p, sg := r.Intn(len(g.agroups)), g.seg()
+			p, sg := r.Intn(len(g.agroups)), g.nseg()
 			g.add(cx.Op{K: "ASG", A: p, Seg: sg, Hs: g.hs(0, 2)})
 			g.agroups = append(g.agroups, struct{ path []int }{cat(g.agroups[p].path, sg)})
 		})
@@ -234,7 +249,7 @@ func (g *gen) step() {
 			}{len(g.vrouters) - 1, nil})
 		})
 		add(4, len(g.avgroups) > 0, func() {
-			p, sg := r.Intn(len(g.avgroups)), g.seg()
+			p, sg := r.Intn(len(g.avgroups)), g.nseg()
 			g.add(cx.Op{K: "AVSG", A: p, Seg: sg, Hs: g.hs(0, 2)})
 			g.avgroups = append(g.avgroups, struct {
 				vr   int
@@ -334,8 +349,8 @@ func (g *gen) siblings() {
 	}
 	var kids []int
 	for i := r.Range(2, 3); i > 0; i-- {
-		sg := g.seg()
-		g.add(cx.Op{K: subK, A: parent, Seg: sg, Hs: g.hs(1, 2)})
+		sg := g.nseg()
+		g.add(cx.Op{K: subK, A: parent, Seg: sg, Hs: g.hs(0, 2)})
 		switch kind {
 		case 0:
 			g.groups = append(g.groups, struct {
@@ -359,7 +374,7 @@ func (g *gen) siblings() {
 			g.add(cx.Op{K: useK, A: k, Hs: g.hs(1, 1)})
 		}
 	}
-	for _, k := range kids {
+	for _, k := range append(kids, parent) { // the parent last: what a child did must not show there
 		sg := g.seg()
 		switch kind {
 		case 0:
@@ -557,7 +572,7 @@ func genScript(r *hx.Rand, st *hx.Stats) (caseT, []cx.Target) {
 			g.addEntry(0, entry{nil, i, []int{sg}, -1})
 		}
 	}
-	c := caseT{Check: !r.Chance(1, 4), Compiled: r.Chance(1, 3), Script: g.script}
+	c := caseT{Check: !r.Chance(1, 4), Compiled: r.Chance(1, 3), NoRoute: r.Chance(1, 4), Tracing: g.app && r.Chance(1, 3), Script: g.script}
 	for h := 1; h <= g.nextH; h++ {
 		c.Beh = append(c.Beh, cx.Beh{H: h, Acts: genBeh(r, st)})
 	}
@@ -603,6 +618,9 @@ func emit(id string, c caseT, w *cx.World, st *hx.Stats) string {
 	cx.EncBeh(l, c.Beh)
 	in := l.String()
 	l.Sep()
+	if c.NoRoute {
+		w.Miss()
+	}
 	res := w.Serve(c.Target, &cx.ReqState{Beh: cx.BehMap(c.Beh)})
 	chain, found := w.Probe(c.Target)
 	if found {
@@ -634,6 +652,12 @@ func emit(id string, c caseT, w *cx.World, st *hx.Stats) string {
 		if !c.Check {
 			st.Count("cancellation_check_off")
 		}
+		if c.NoRoute {
+			st.Count("aborting_NoRoute_then_404_before_request")
+		}
+		if c.Tracing {
+			st.Count("app_tracing_on")
+		}
 		if c.Compiled {
 			st.Count("route_compilation_on")
 		}
@@ -655,7 +679,7 @@ func countEnters(tr []string) int {
 }
 
 func runScript(idp string, c caseT, ts []cx.Target, w *hx.Rand, st *hx.Stats, out func(string)) {
-	world, err := cx.Build(c.Script, cx.BuildOpts{Check: c.Check, Compiled: c.Compiled})
+	world, err := cx.Build(c.Script, cx.BuildOpts{Check: c.Check, Compiled: c.Compiled, NoRoute: c.NoRoute, Tracing: c.Tracing})
 	if err != nil {
 		out(fmt.Sprintf("# %s: script not executable: %v%s", idp, err, hx.Comment(c)))
 		if st != nil {
@@ -775,7 +799,7 @@ func main() {
 				out(fmt.Sprintf("# cannot replay %q: %v", id, err))
 				continue
 			}
-			world, err := cx.Build(c.Script, cx.BuildOpts{Check: c.Check, Compiled: c.Compiled})
+			world, err := cx.Build(c.Script, cx.BuildOpts{Check: c.Check, Compiled: c.Compiled, NoRoute: c.NoRoute, Tracing: c.Tracing})
 			if err != nil {
 				out(fmt.Sprintf("# %s: script not executable: %v", id, err))
 				continue
